@@ -120,14 +120,7 @@ def recording_store(inner=None):
 
 
 def reset_dds_state():
-    """forget process-wide analysis state between independent cases"""
+    """leave the evaluation context a failed case may have left behind (C10 checks separately that dds does so itself);
+    the process-wide caches of the implementation are NOT touched: whatever they remember is part of what is being checked"""
     import dds._api as api
     api._eval_ctx = None
-    try:
-        from dds import _global_ctx
-        g = _global_ctx._global_context
-        if g is not None:
-            g.cached_fun_calls.clear()
-            g.cached_fun_interactions.clear()
-    except Exception:
-        pass
